@@ -102,4 +102,51 @@ PROPS = {
             "sim": "clock: testing/synctest fake clock; sequential history, no scheduler needed",
         },
     },
+    "C04": {
+        "engine": "cachesim",
+        "instrument": "",
+        "cfgs": ["simple", "ecs", "ecsmw"],
+        "quick": {"seconds": 30, "chunk": 3000, "runs": 200000},
+        "thorough": {"seconds": 900, "chunk": 10000},
+        "rule": ("one run = cache configuration (simple dnsserver/cache middleware, or the ECS cache inside the full handler "
+                 "stack; min-TTL override on/off) and a history of 3-40 queries over a per-run subset of 18 scripted names "
+                 "(answers with per-record TTLs 0,2,5,30,300,2^31; CNAME chain; NODATA with/without SOA, SOA.MINIMUM below/"
+                 "above TTL; NXDOMAIN; SERVFAIL; REFUSED; truncated; AD; RRSIG under DO; ECS-scoped), qtypes, classes, case, "
+                 "DO/AD/CD, ECS options and clients, separated by clock advances from {0, .1, .4, .5, .6, 1s, TTL-.6, TTL-.4, "
+                 "TTL-1ns, TTL, TTL+1ns, 2TTL, 29s, 31s, 5min}; every answer served without an upstream call is compared "
+                 "with a freshly started twin asked at the same instant; non-trivial = at least one cache hit; distinct = "
+                 "distinct decision-sequence hash"),
+        "assumptions": [
+            "the upstream answer is a pure function of (question, DO, forwarded subnet)",
+            "clients without a coarse GeoIP subnet are excluded from C04 runs (their scope-zero answers are shared by design; C05 covers them)",
+            "TTL bound uses round-half-up of (original TTL - exact simulated age), original TTL taken from the fresh twin's answer (so the min-TTL override is excepted as the statement says)",
+        ],
+        "components": {
+            "real": ["internal/dnsserver/cache (simple)", "internal/ecscache + dnssvc.NewHandlers stack: initial, ratelimitmw (request info, ECS parsing), preservice, mainmw, preupstream (ecs)", "dnsmsg.Cloner", "agdcache LRU / gcache on the simulated clock"],
+            "stub": ["upstream handler (scripted)", "GeoIP (transparent address->location->subnet table)", "filters (empty), profile DB (disabled), rate limiter (never limits)"],
+            "sim": "clock: testing/synctest fake clock; sequential history",
+        },
+    },
+    "C05": {
+        "engine": "cachesim",
+        "instrument": "",
+        "cfgs": ["ecs", "ecsmw"],
+        "quick": {"seconds": 30, "chunk": 3000, "runs": 200000},
+        "thorough": {"seconds": 900, "chunk": 10000},
+        "rule": ("one run = ECS cache inside the full handler stack; 3-40 queries from a per-run subset of 7 clients (IPv4/IPv6, "
+                 "locations known, unknown, known without a subnet for the family) with ECS option absent / own prefix / "
+                 "foreign prefix / own address / other family / zero-length / malformed (bad family, bits beyond prefix, mask "
+                 "too long), for names the upstream scopes to the subnet and names it does not, in all arrival orders and "
+                 "cache ages; upstream answers are tagged with the subnet they were computed for; non-trivial = a cache hit "
+                 "occurred; distinct = distinct decision-sequence hash"),
+        "assumptions": [
+            "the GeoIP stub maps address -> (country, ASN) -> coarse subnet per family transparently; client addresses and client-supplied prefixes are disjoint from the coarse subnets",
+            "an answer the upstream computed for the zero prefix has scope zero and may be served to every client of that family",
+        ],
+        "components": {
+            "real": ["internal/ecscache", "dnssvc.NewHandlers stack incl. ratelimitmw request-info/ECS parsing (FORMERR path)", "dnsmsg ECS helpers"],
+            "stub": ["upstream handler (scripted, tags answers with the forwarded subnet)", "GeoIP (transparent table)"],
+            "sim": "clock: testing/synctest fake clock; sequential history",
+        },
+    },
 }
